@@ -414,6 +414,7 @@ func runGaugeChild(in string) {
 	deadline := time.Now().Add(60 * time.Second)
 	var last [3]uint64
 	lastChange := time.Now()
+	polls := 0
 	for {
 		got := [3]uint64{stats.PreprocessorRoutinesGet(), stats.ArchiverRoutinesGet(), stats.PostprocessorRoutinesGet()}
 		if got == want {
@@ -421,11 +422,13 @@ func runGaugeChild(in string) {
 			break
 		}
 		if got != last {
-			last, lastChange = got, time.Now()
+			last, lastChange, polls = got, time.Now(), 0
 		}
-		// give up after 60 s, or when nothing has moved for 8 s (the workers are goroutines
-		// started by Start() itself: on a loaded machine they are late by milliseconds, not seconds)
-		if time.Now().After(deadline) || time.Since(lastChange) > 8*time.Second {
+		polls++
+		// give up after 60 s, or when nothing has moved for 8 s AND 1500 polls of this goroutine (the
+		// workers are goroutines of this process started by Start() itself: if this goroutine ran
+		// 1500 times, so did they)
+		if time.Now().After(deadline) || (time.Since(lastChange) > 8*time.Second && polls > 1500) {
 			break
 		}
 		time.Sleep(2 * time.Millisecond)
